@@ -144,6 +144,30 @@ impl Prop for C09 {
       }
     } }
     for (ni, n) in noses.iter().enumerate() { for (fi, text) in [format!("╭{}╮", n), format!("({}˙{}˙)", "", n), format!("(˙{}", n), format!("╭{}", n), format!("{}╮", n)].iter().enumerate() { out.push(Case { id: format!("mika-nose;n={};f={}", ni, fi), cell: "md-mika".into(), input: json!({"text": text}) }); } }
+    // (viii) numeric literal spellings: mantissa x exponent x suffix, in code, matrix and prose positions
+    let mants = ["1", "1.0", ".5", "6.02", "0x1F", "0b101", "0o17", "1_000", "1.", "00", "1/2", "0.0", "12.5", "1.0.0"];
+    let exps = ["", "e3", "E3", "e-3", "e+3", "e", "e3.5", "e-", "E+", "e03"];
+    let sufs = ["", "u8", "f32", "i8", "i", "j", "x", "<u8>", "u", "_", "%", "f64", "u128", "i64x", "é"];
+    for (mi, m) in mants.iter().enumerate() { for (ei, e) in exps.iter().enumerate() { for (si, su) in sufs.iter().enumerate() {
+      let lit = format!("{}{}{}", m, e, su);
+      let h = Rng::keyed(seed, &format!("c09num{}.{}.{}", mi, ei, si)).next();
+      let ctxs = [format!("x := {}", lit), format!("x := [{} 2]", lit), format!("x := -{} + 1", lit), format!("The value {{{}}} is inline.\n", lit), format!("x := {{{}, 2}}", lit), format!("f({})", lit), format!("x := 1..{}", lit), format!("x<f64> := {}\ny := 2", lit)];
+      let picks: Vec<usize> = if tier == Tier::Quick { vec![0, 1 + (h % 7) as usize] } else { (0..ctxs.len()).collect() };
+      for ci in picks { out.push(Case { id: format!("numlit;m={};e={};s={};c={}", mi, ei, si, ci), cell: "numeric-literal-forms".into(), input: json!({"text": ctxs[ci]}) }); }
+    } } }
+    // (ix) accounting: a marker word placed after an inline-markup opener inside comments and prose. If the text parses, the tree must still
+    // contain the marker (the tree accounts for the entire input); the twin without the opener shows that this position keeps its text at all.
+    let openers = ["[", "<", "*", "_", "~", "|", "{", "`", "![", "[^", "$$", "**", "!!", "(", "«", "%%", "@", "#", "]", ")", "}", "[a](", "{{", "^", "\"", "'", "=>", ":=", "--", "//", "<<", ">>", "⸢", "(!)>", "?>"];
+    let frames: [(&str, &str); 14] = [("x := 1 -- note ", " tail"), ("x := 1 // note ", " tail"), ("-- note ", " tail\nx := 1"), ("// note ", " tail\nx := 1"), ("Some prose ", " and more.\n"), ("- item ", " text\n- second\n"), ("> quoted ", " text\n"), ("Title\n=====\n\nPara ", " end.\n"), ("## Heading ", " more\n\ntext\n"), ("| a | b |\n|---|---|\n| c ", " | d |\n"), ("x := 1\ny := 2 -- about y ", "\nz := 3"), ("```mech\nx := 1 -- in fence ", "\n```\n"), ("1. first ", " text\n2. second\n"), ("(i)> info ", " text\n")];
+    for (fi, (pre, post)) in frames.iter().enumerate() { for (oi, op) in openers.iter().enumerate() {
+      for (vi, (a, b)) in [(" ", " "), ("", " "), (" ", "")].iter().enumerate() {
+        if tier == Tier::Quick && vi > 0 && (fi + oi) % 3 != 0 { continue; }
+        let marker = format!("zq{}m{}", fi, oi);
+        let text = format!("{}{}{}{}{}{}", pre, a, op, b, marker, post);
+        let twin = format!("{}{}{}", pre, marker, post);
+        out.push(Case { id: format!("account;f={};o={};v={}", fi, oi, vi), cell: "accounting-markup".into(), input: json!({"text": text, "markers": [marker], "twin": twin}) });
+      }
+    } }
     // documents with 1-3 mutations
     for (path, text) in corpus::mec_files(4 * 1024) {
       for m in 0..(if tier == Tier::Quick { 2 } else { 16 }) { let mut rng = Rng::keyed(seed, &format!("c09docmut{}{}", path, m)); out.push(Case { id: format!("docmut;path={};m={}", path, m), cell: "document-mutated".into(), input: json!({"text": mutate(&text, &mut rng)}) }); }
@@ -216,6 +240,11 @@ impl Prop for C09 {
       Ok(tree) => {
         if let Some(ms) = case.input.get("markers").and_then(|m| m.as_array()) {
           let dump = format!("{:?}", tree);
+          if let Some(tw) = case.input.get("twin").and_then(|t| t.as_str()) {
+            // the position must keep its text on the benign twin, otherwise nothing can be said about the hostile variant
+            let keeps = match guarded(|| parser::parse(tw)) { Ok(Ok(t2)) => { let d2 = format!("{:?}", t2); ms.iter().all(|m| { let m = m.as_str().unwrap(); let chars: String = m.chars().map(|c| format!("\"{}\", ", c)).collect(); d2.contains(chars.trim_end_matches(", ")) || d2.contains(m) }) } _ => false };
+            if !keeps { return Outcome::trivial().tag("accounting:twin-does-not-keep-text"); }
+          }
           for m in ms { let m = m.as_str().unwrap(); let chars: String = m.chars().map(|c| format!("\"{}\", ", c)).collect(); if !dump.contains(chars.trim_end_matches(", ")) && !dump.contains(m) { return Outcome::violated("input-dropped", format!("`{}` parsed to a tree that does not contain the statement defining {}", shown(), m)); } }
         }
         Outcome::held().tag("ok")
